@@ -49,18 +49,20 @@ def _resolve_target(
     """Resolve the parent and target of a patch operation.
 
     `JSONPointer` resolves some non-standard tokens, like `~name`, to the name
-    of a member. Such a token does not address a member of the target document,
-    so a patch operation must see it as missing.
+    of a member, or `#0` to the index of an array element. Such a token does not
+    address a member or element of the target document, so a patch operation
+    must see it as missing.
     """
     # _data_ has been loaded already. If an operation has made the document a
     # string, it is a JSON string, not JSON text to be parsed.
     parent, obj = pointer._resolve_parent(data)
-    if (
-        obj is not UNDEFINED
-        and isinstance(parent, Mapping)
-        and _member_name(parent, pointer.parts[-1]) not in parent
-    ):
-        obj = UNDEFINED
+    if parent is not None and obj is not UNDEFINED:
+        target = pointer.parts[-1]
+        if isinstance(parent, Mapping):
+            if _member_name(parent, target) not in parent:
+                obj = UNDEFINED
+        elif isinstance(parent, Sequence) and not isinstance(target, int):
+            obj = UNDEFINED
     return parent, obj
 
 
